@@ -201,10 +201,12 @@ Print Assumptions C17_update_correct_refuted_old_dyn_added.
    afterwards; (3) a stored observation is accepted exactly when its endpoint matches and its
    request names an existing observable resource, and then a subscription with its address
    tuple and token is on that resource's list.
-   Missing for the full statement: that a subscription made for one record survives the
-   processing of the later records (needs pairwise distinct (tuple, cache key) per resource - an
-   invariant of coap_add_observer), and the invariant linking the in-memory state before the kill
-   to the files over a history; both are covered by the tie and the oracle on every run only. *)
+   (4) C17_restart_restores_observations: every stored observation is present in the restored
+   server when the records are pairwise distinct in (resource, session, token / cache key).
+   Missing for the full statement: the invariant linking the in-memory state before the kill to
+   the files over a history (that the files hold exactly the live observations / resources, and
+   satisfy the distinctness above); it is covered by C17_update_correct_* per updater and by the
+   tie and the oracle on every run, not by one theorem over histories. *)
 Theorem C17_restart_restores_partial : forall pol app req alloc cfg m0 D O C fs,
   0 < cf_la cfg -> 0 < cf_lt cfg -> (forall live, len (alloc live) = PS_KEY) ->
   cf_dyn cfg = true -> cf_obs cfg = true -> cf_cnt cfg = true -> cf_unknown cfg = true ->
@@ -239,6 +241,20 @@ Theorem C17_restart_restores_observation : forall req alloc cfg r m C name token
       In s (rs_subs rs') /\ su_key s = key /\ su_tuple s = ob_tuple r /\ su_token s = token.
 Proof. exact ps_obs_step_accepts. Qed.
 Print Assumptions C17_restart_restores_observation.
+
+(* every stored observation is re-established - with its session, token, cache key and stored
+   request - in a fresh process, whatever the order and number of records, provided the records
+   are pairwise different in (resource, session, token) and in (resource, session, cache key)
+   (coap_add_observer keeps at most one subscription per such key, so the files it maintains
+   satisfy this) and each names an existing observable resource *)
+Theorem C17_restart_restores_observations : forall app req alloc cfg m0 D O C,
+  let m2 := ps_set_counts (ps_rounded (cf_freq cfg) C) (ps_dyn_fold (ps_dyn_step app) D m0) in
+  (forall n rs, ps_find n m2 = Some rs -> rs_subs rs = []) ->
+  (forall r, In r O -> ps_acceptable req cfg m2 r) ->
+  NoDup (map (ps_ktok req) O) -> NoDup (map (ps_kck req) O) ->
+  forall r, In r O -> ps_present req (ps_restored_mem app req alloc cfg m0 D O C) r.
+Proof. exact ps_restored_observations. Qed.
+Print Assumptions C17_restart_restores_observations.
 
 (* the loaders skip nothing and invent nothing *)
 Theorem C17_restart_counter_load : forall pol fuel freq l s,
